@@ -140,6 +140,8 @@ def fit_minuit_v2(fcn, bounds_dict={}, hesse=True, minos=False, **kwargs):
         m.minos()  # (var="")
         print("MINOS Time", time.time() - now)
     ndf = len(var_names)
+    # HESSE / MINOS leave the model at their last probe point
+    fcn.vm.set_all(dict(zip(var_names, [float(i) for i in m.values])))
     ret = FitResult(
         dict(zip(var_names, m.values)), fcn, m.fval, ndf=ndf, success=m.valid
     )
@@ -394,7 +396,7 @@ def fit_scipy(
         fcn.vm.set_bound(bounds_dict)
         return fit_newton_cg(fcn, method[:-2], True)
     elif method in ["iminuit"]:
-        m = fit_minuit(fcn)
+        m = fit_minuit(fcn, bounds_dict=bounds_dict)
         return m
     elif method in ["root"]:
         m = fit_root_fitter(fcn)
